@@ -15,6 +15,7 @@ P=tools/design_parts
   python3 tools/mkseedtable.py
   cat $P/08b_refactor.md
   [ -f $P/08c_round_d.md ] && cat $P/08c_round_d.md
+  [ -f $P/08d_round3_sweep.md ] && cat $P/08d_round3_sweep.md
   cat $P/09_why.md $P/10_appendix.md
 } > DESIGN.md
 wc -l DESIGN.md
